@@ -214,7 +214,7 @@ impl PtSide {
             "create" => {
                 let p = node!("p");
                 let name = cstr(&name_bytes(op, "name"));
-                let args = CreateIn { flags: u(op, "flags") as u32, mode: u(op, "mode") as u32, umask: u(op, "umask") as u32, fuse_flags: 0 };
+                let args = CreateIn { flags: u(op, "flags") as u32, mode: u(op, "mode") as u32, umask: u(op, "umask") as u32, fuse_flags: if op["kill"].as_bool().unwrap_or(false) { 1 } else { 0 } };
                 match fs.create(&ctx, p.into(), &name, args) {
                     Ok((e, h, _, _)) => {
                         self.ns.push(Some(e.inode));
@@ -263,7 +263,7 @@ impl PtSide {
             }
             "open" => {
                 let n = node!("n");
-                match fs.open(&ctx, n.into(), u(op, "flags") as u32, 0) {
+                match fs.open(&ctx, n.into(), u(op, "flags") as u32, if op["kill"].as_bool().unwrap_or(false) { 1 } else { 0 }) {
                     Ok((h, _, _)) => {
                         match h {
                             Some(h) => self.hs.push(Some(PtH { h: h.into(), node: i(op, "n") as usize })),
@@ -333,7 +333,7 @@ impl PtSide {
                 let data = bytes(op, "data");
                 let len = data.len() as u32;
                 let mut r = VecR(data, 0);
-                match fs.write(&ctx, n.into(), F::Handle::from(h), &mut r, len, u(op, "off"), None, false, u(op, "flags") as u32, 0) {
+                match fs.write(&ctx, n.into(), F::Handle::from(h), &mut r, len, u(op, "off"), None, false, u(op, "flags") as u32, if op["kill"].as_bool().unwrap_or(false) { 4 } else { 0 }) {
                     Ok(k) => StepRes::ok().set("n", json!(k)),
                     Err(e) => fail(&e),
                 }
@@ -390,6 +390,9 @@ impl PtSide {
                         "MTIME_NOW" => SetattrValid::MTIME_NOW,
                         _ => SetattrValid::empty(),
                     };
+                }
+                if op["kill"].as_bool().unwrap_or(false) {
+                    valid |= SetattrValid::KILL_SUIDGID;
                 }
                 let a = &op["attr"];
                 let mut st: libc::stat64 = unsafe { std::mem::zeroed() };
